@@ -4,6 +4,7 @@ import Octo.Model.SsConfig
 import Octo.Model.Vmess
 import Octo.Model.Trojan
 import Octo.Model.Socks5
+import Octo.Model.SsUdp
 import Octo.Spec.Wire
 import Octo.Crypto.Real
 import Std.Data.HashMap
@@ -42,7 +43,14 @@ structure TjStream where
   enc : Trojan.ClientEnc := {}
   fr : FrSt Trojan.SrvSt := { st := .header }
 
+structure SsuObj where
+  ctx : Ss.Ctx
+  client : Bool
+  cc : SsUdp.ClientCodec := { session := {} }
+  known : Bool := false        -- the client's random session id has been learned from its first packet
+
 inductive Obj where
+  | ssu (o : SsuObj)
   | pw (f : PW.Filter)
   | ssCtx (c : SsCtxObj)
   | ss (s : SsStream)
@@ -343,6 +351,81 @@ def step (st : St) (toks : List String) : St × String :=
     match unhexOrDash h with
     | some b => (st, hexOrDash (C.sha256 b))
     | none => (st, "bad-op")
+  | "ssu.client" :: name :: rest =>
+    match kv rest "cipher", kv rest "password" with
+    | some c, some p =>
+      match Ss.udpCtxOfConfig C c p [] with
+      | some ctx => ({ st with objs := st.objs.insert name (.ssu { ctx := ctx, client := true }) }, "ok")
+      | none => (st, "err")
+    | _, _ => (st, "bad-op")
+  | "ssu.server" :: name :: rest =>
+    match kv rest "cipher", kv rest "password", kv rest "users" with
+    | some c, some p, some u =>
+      match Ss.udpCtxOfConfig C c p (parseUsers u) with
+      | some ctx => ({ st with objs := st.objs.insert name (.ssu { ctx := ctx, client := false }) }, "ok")
+      | none => (st, "err")
+    | _, _, _ => (st, "bad-op")
+  | "ssu.cenc" :: name :: rest =>
+    match st.objs.get? name, (kv rest "addr").bind parseAddr, (kv rest "payload").bind unhexOrDash with
+    | some (.ssu o), some a, some p =>
+      let impl := (kv rest "impl").bind unhexOrDash
+      match impl with
+      | none =>
+        -- the implementation refused: the model must refuse too (id exhausted)
+        let (r, _) := SsUdp.ClientCodec.encode C o.ctx o.cc a p {}
+        (st, match r with
+          | .ok _ => "need-impl-wire"
+          | _ => "err")
+      | some w =>
+        let (s, rnd) := SsUdp.recover C o.ctx .client none w
+        -- the first packet tells the random client session id
+        let cc := if o.known then o.cc else { o.cc with session := { o.cc.session with clientSessionId := s.clientSessionId } }
+        let (r, cc') := SsUdp.ClientCodec.encode C o.ctx cc a p rnd
+        let now := ((kv rest "now").bind String.toNat?).getD rnd.now
+        let tsOk := ¬ o.ctx.kind.is2022 ∨ (now ≤ rnd.now + 1 ∧ rnd.now ≤ now + 1)
+        ({ st with objs := st.objs.insert name (.ssu { o with cc := cc', known := true }) }, match r with
+          | .ok mw => (if tsOk then "" else "bad-ts ") ++ hexOrDash mw
+          | _ => "err")
+    | _, _, _ => (st, "bad-op")
+  | "ssu.cdec" :: name :: h :: rest =>
+    match st.objs.get? name, unhexOrDash h with
+    | some (.ssu o), some b =>
+      let now := ((kv rest "now").bind String.toNat?).getD 0
+      let (r, cc') := SsUdp.ClientCodec.decode C o.ctx o.cc now b
+      ({ st with objs := st.objs.insert name (.ssu { o with cc := cc' }) }, match r with
+        | .ok (some (p, a)) => s!"ok {showAddr a} data={hexOrDash p}"
+        | .ok none => "none"
+        | .panic => "panic"
+        | _ => "err")
+    | _, _ => (st, "bad-op")
+  | "ssu.setid" :: name :: rest =>
+    -- test hook of the harness: put the client's packet id counter at a chosen value
+    match st.objs.get? name, (kv rest "pid").bind String.toNat? with
+    | some (.ssu o), some pid =>
+      ({ st with objs := st.objs.insert name (.ssu { o with cc := { o.cc with session := { o.cc.session with packetId := pid } } }) }, "ok")
+    | _, _ => (st, "bad-op")
+  | "ssu.sdec" :: name :: h :: rest =>
+    match st.objs.get? name, unhexOrDash h with
+    | some (.ssu o), some b =>
+      let now := ((kv rest "now").bind String.toNat?).getD 0
+      (st, match SsUdp.decode C o.ctx .server now b with
+        | .ok (p, a, s) => s!"ok csid={s.clientSessionId} pid={s.packetId} user={(s.user.map (·.name)).getD "-"} {showAddr a} data={hexOrDash p}"
+        | .panic => "panic"
+        | _ => "err")
+    | _, _ => (st, "bad-op")
+  | "ssu.senc" :: name :: rest =>
+    match st.objs.get? name, (kv rest "addr").bind parseAddr, (kv rest "payload").bind unhexOrDash,
+        (kv rest "csid").bind String.toNat?, (kv rest "ssid").bind String.toNat?, (kv rest "pid").bind String.toNat? with
+    | some (.ssu o), some a, some p, some csid, some ssid, some pid =>
+      let user := (kv rest "user").bind fun n => o.ctx.users.find? (·.name == n)
+      match (kv rest "impl").bind unhexOrDash with
+      | none => (st, "need-impl-wire")
+      | some w =>
+        let (_, rnd) := SsUdp.recover C o.ctx .server user w
+        let now := ((kv rest "now").bind String.toNat?).getD rnd.now
+        let tsOk := ¬ o.ctx.kind.is2022 ∨ (now ≤ rnd.now + 1 ∧ rnd.now ≤ now + 1)
+        (st, (if tsOk then "" else "bad-ts ") ++ hexOrDash (SsUdp.encode C o.ctx .server ⟨csid, ssid, pid, user⟩ a p rnd))
+    | _, _, _, _, _, _ => (st, "bad-op")
   | ["s5.dec", kind, h] =>
     match unhexOrDash h with
     | none => (st, "bad-op")
@@ -571,7 +654,7 @@ partial def loop (h : IO.FS.Stream) (out : IO.FS.Stream) (st : St) : IO Unit := 
     let toks := (lhs.splitOn " ").filter (· ≠ "")
     -- encoders draw randomness inside the implementation: give the model the implementation's
     -- output so that it can recover the random values and re-encode
-    let toks := if toks.head? == some "st.enc" then
+    let toks := if toks.head? == some "st.enc" || toks.head? == some "ssu.cenc" || toks.head? == some "ssu.senc" then
         match parts with
         | [_, r] => toks ++ ["impl=" ++ (r.trimAscii.toString.splitOn " ").head!]
         | _ => toks
